@@ -79,6 +79,83 @@ theorem descendants_are_nodes (g : G) (hc : Coherent g) (l x : Int) (h : x ∈ d
   obtain ⟨m, hm, hml, -⟩ := hc.succ_ok n hn x hx
   exact mem_labels.mpr ⟨m, hm, hml⟩
 
+/-! ### the two views describe the same paths on a coherent network -/
+
+theorem find_of_mem {g : G} (h : (labels g).Nodup) {n : GNode} (hn : n ∈ g) : find g n.label = some n := by
+  unfold find
+  cases hf : g.find? (·.label == n.label) with
+  | none =>
+    have := List.find?_eq_none.mp hf n hn
+    simp at this
+  | some m =>
+    have hm := List.mem_of_find?_eq_some hf
+    have hl : m.label = n.label := by simpa using List.find?_some hf
+    rw [label_unique h hm hn hl]
+
+theorem mem_succsOf {g : G} (h : (labels g).Nodup) {a b : Int} :
+    b ∈ succsOf g a ↔ ∃ n ∈ g, n.label = a ∧ b ∈ n.succs := by
+  constructor
+  · intro hb
+    unfold succsOf at hb
+    split at hb
+    · next n hn =>
+      refine ⟨n, List.mem_of_find?_eq_some hn, ?_, hb⟩
+      simpa using List.find?_some hn
+    · simp at hb
+  · rintro ⟨n, hn, rfl, hb⟩
+    unfold succsOf
+    rw [find_of_mem h hn]; exact hb
+
+theorem mem_predsOf {g : G} (h : (labels g).Nodup) {a b : Int} :
+    a ∈ predsOf g b ↔ ∃ n ∈ g, n.label = b ∧ a ∈ n.preds := by
+  constructor
+  · intro hb
+    unfold predsOf at hb
+    split at hb
+    · next n hn =>
+      refine ⟨n, List.mem_of_find?_eq_some hn, ?_, hb⟩
+      simpa using List.find?_some hn
+    · simp at hb
+  · rintro ⟨n, hn, rfl, hb⟩
+    unfold predsOf
+    rw [find_of_mem h hn]; exact hb
+
+/-- On a coherent network `b` is listed as a successor of `a` exactly when `a` is listed as a predecessor of `b`. -/
+theorem succsOf_iff_predsOf (g : G) (hc : Coherent g) (a b : Int) : b ∈ succsOf g a ↔ a ∈ predsOf g b := by
+  rw [mem_succsOf hc.nodup, mem_predsOf hc.nodup]
+  constructor
+  · rintro ⟨n, hn, rfl, hb⟩
+    obtain ⟨m, hm, hml, hp⟩ := hc.succ_ok n hn b hb
+    exact ⟨m, hm, hml, hp⟩
+  · rintro ⟨n, hn, rfl, ha⟩
+    obtain ⟨m, hm, hml, hp⟩ := hc.pred_ok n hn a ha
+    exact ⟨m, hm, hml, hp⟩
+
+/-- Paths can be extended at the front. -/
+theorem Path.cons {next : Int → List Int} {a x b : Int} (h1 : x ∈ next a) (h2 : Path next x b) : Path next a b := by
+  induction h2 with
+  | one h => exact Path.snoc (Path.one h1) h
+  | snoc _ h ih => exact Path.snoc ih h
+
+/-- Reversal: a path along `nxt` from `a` to `b` is a path along the converse relation from `b` to `a`. -/
+theorem Path.reverse {nxt prv : Int → List Int} (hconv : ∀ a b, b ∈ nxt a → a ∈ prv b) {a b : Int}
+    (h : Path nxt a b) : Path prv b a := by
+  induction h with
+  | one h => exact Path.one (hconv _ _ h)
+  | snoc _ h ih => exact Path.cons (hconv _ _ h) ih
+
+/-- On a coherent network, a successor path from `a` to `b` exists exactly when a predecessor path from `b` to `a` does: what
+`descendants` may report about `(a, b)` and what `ancestors` may report about `(b, a)` are the same relation. -/
+theorem path_succs_iff_path_preds (g : G) (hc : Coherent g) (a b : Int) :
+    Path (succsOf g) a b ↔ Path (predsOf g) b a :=
+  ⟨Path.reverse fun x y h => (succsOf_iff_predsOf g hc x y).mp h,
+   Path.reverse fun x y h => (succsOf_iff_predsOf g hc y x).mpr h⟩
+
+/-- A reported descendant `x` of `l` has `l` joined to it by a predecessor path (the relation `ancestors` explores). -/
+theorem descendant_has_ancestor_path (g : G) (hc : Coherent g) (l x : Int) (h : x ∈ descendants g l) :
+    Path (predsOf g) x l :=
+  (path_succs_iff_path_preds g hc l x).mp (descendants_sound g l x h)
+
 /-- Non-vacuity: on the path 1 → 2 → 3 the descendants of 1 are 2 and 3, and 1 itself is not among them. -/
 example : descendants [⟨1, [], [2]⟩, ⟨2, [1], [3]⟩, ⟨3, [2], []⟩] 1 = [2, 3] := by decide
 
